@@ -204,7 +204,20 @@ func GenTyped(t *rapid.T, kind, label string) string {
 
 // Instantiate fills the template's wildcards and returns the path together
 // with the text each top-level variable covers. "**" gets 1..maxSS segments.
-func Instantiate(t *rapid.T, tm *ref.Template, maxSS int) (string, ref.Binding) {
+//
+// If other templates are given, a wildcard is often filled with the literal
+// another template spells at the same segment index, so that several rules
+// match the produced path.
+func Instantiate(t *rapid.T, tm *ref.Template, maxSS int, others ...*ref.Template) (string, ref.Binding) {
+	hint := func(idx int) []string {
+		var out []string
+		for _, o := range others {
+			if a := o.Atoms(); idx < len(a) && a[idx].Kind == ref.Lit {
+				out = append(out, a[idx].Lit)
+			}
+		}
+		return out
+	}
 	atoms := tm.Atoms()
 	vars := tm.Vars()
 	caps := make([][]string, len(vars))
@@ -219,7 +232,9 @@ func Instantiate(t *rapid.T, tm *ref.Template, maxSS int) (string, ref.Binding) 
 			if a.Var >= 0 {
 				kind = FieldKind(strings.Join(vars[a.Var], "."))
 			}
-			if kind == "str" {
+			if h := hint(len(segs)); kind == "str" && len(h) > 0 && rapid.Bool().Draw(t, fmt.Sprint("steer", ai)) {
+				parts = []string{rapid.SampledFrom(h).Draw(t, fmt.Sprint("hint", ai))}
+			} else if kind == "str" {
 				parts = []string{GenSegment(t, fmt.Sprint("seg", ai))}
 			} else {
 				parts = []string{GenTyped(t, kind, fmt.Sprint("typed", ai))}
@@ -227,6 +242,10 @@ func Instantiate(t *rapid.T, tm *ref.Template, maxSS int) (string, ref.Binding) 
 		case ref.StarStar:
 			n := rapid.IntRange(1, maxSS).Draw(t, fmt.Sprint("ss", ai))
 			for i := 0; i < n; i++ {
+				if h := hint(len(segs) + i); len(h) > 0 && rapid.Bool().Draw(t, fmt.Sprint("steer", ai, "_", i)) {
+					parts = append(parts, rapid.SampledFrom(h).Draw(t, fmt.Sprint("hint", ai, "_", i)))
+					continue
+				}
 				parts = append(parts, GenSegment(t, fmt.Sprint("ss", ai, "_", i)))
 			}
 		}
@@ -244,4 +263,125 @@ func Instantiate(t *rapid.T, tm *ref.Template, maxSS int) (string, ref.Binding) 
 		b[i] = strings.Join(caps[i], "/")
 	}
 	return p, b
+}
+
+func cloneSegs(segs []ref.Seg) []ref.Seg {
+	out := make([]ref.Seg, len(segs))
+	for i, s := range segs {
+		out[i] = s
+		out[i].Field = append([]string{}, s.Field...)
+		out[i].Pat = cloneSegs(s.Pat)
+		if s.Pat == nil {
+			out[i].Pat = nil
+		}
+	}
+	return out
+}
+
+// Derive returns a template that overlaps with tm: one segment generalised
+// or specialised, a segment appended/dropped, or the verb toggled.
+func Derive(t *rapid.T, tm *ref.Template, o GenOpts) *ref.Template {
+	n := &ref.Template{Segs: cloneSegs(tm.Segs), Verb: tm.Verb}
+	used := map[string]bool{}
+	for _, v := range tm.Vars() {
+		used[strings.Join(v, ".")] = true
+	}
+	freeField := func() (string, bool) {
+		var free []string
+		for _, f := range StringFields {
+			if !used[f] {
+				free = append(free, f)
+			}
+		}
+		if len(free) == 0 {
+			return "", false
+		}
+		return rapid.SampledFrom(free).Draw(t, "dfield"), true
+	}
+	lastIsSS := func() bool {
+		a := n.Atoms()
+		return len(a) > 0 && a[len(a)-1].Kind == ref.StarStar
+	}
+	i := rapid.IntRange(0, len(n.Segs)-1).Draw(t, "dseg")
+	switch rapid.IntRange(0, 5).Draw(t, "dkind") {
+	case 0: // literal -> wildcard / variable
+		if n.Segs[i].Kind == ref.Lit {
+			if f, ok := freeField(); ok && rapid.Bool().Draw(t, "dvar") {
+				n.Segs[i] = ref.Seg{Kind: ref.Var, Field: strings.Split(f, "."), Pat: []ref.Seg{{Kind: ref.Star}}}
+			} else {
+				n.Segs[i] = ref.Seg{Kind: ref.Star}
+			}
+		}
+	case 1: // wildcard / variable -> literal
+		if n.Segs[i].Kind != ref.Lit && !(i == len(n.Segs)-1 && lastIsSS()) {
+			n.Segs[i] = ref.Seg{Kind: ref.Lit, Lit: rapid.SampledFrom(LitPool).Draw(t, "dlit")}
+		}
+	case 2: // append a segment
+		if !lastIsSS() && len(n.Segs) < 6 {
+			if f, ok := freeField(); ok && rapid.Bool().Draw(t, "dvar") {
+				n.Segs = append(n.Segs, ref.Seg{Kind: ref.Var, Field: strings.Split(f, "."), Pat: []ref.Seg{{Kind: ref.Star}}})
+			} else {
+				n.Segs = append(n.Segs, ref.Seg{Kind: ref.Lit, Lit: rapid.SampledFrom(LitPool).Draw(t, "dlit")})
+			}
+		}
+	case 3: // drop the last segment
+		if len(n.Segs) > 1 {
+			n.Segs = n.Segs[:len(n.Segs)-1]
+		}
+	case 4: // toggle verb
+		if n.Verb == "" {
+			n.Verb = rapid.SampledFrom(VerbPool).Draw(t, "dverb")
+		} else {
+			n.Verb = ""
+		}
+	case 5: // variable with literal-prefixed pattern in place of a literal followed by anything
+		if n.Segs[i].Kind == ref.Lit && i+1 < len(n.Segs) && n.Segs[i+1].Kind != ref.Lit && !(i+1 == len(n.Segs)-1 && lastIsSS()) {
+			if f, ok := freeField(); ok {
+				if n.Segs[i+1].Kind == ref.Var {
+					break
+				}
+				v := ref.Seg{Kind: ref.Var, Field: strings.Split(f, "."), Pat: []ref.Seg{{Kind: ref.Lit, Lit: n.Segs[i].Lit}, {Kind: ref.Star}}}
+				n.Segs = append(append(cloneSegs(n.Segs[:i]), v), n.Segs[i+2:]...)
+			}
+		}
+	}
+	p, err := ref.ParseTemplate(n.String())
+	if err != nil {
+		return tm
+	}
+	if o.StarStarOnlyLast && p.StarStarNotLast {
+		return tm
+	}
+	return p
+}
+
+// GenOverlappingRuleSet is GenRuleSet where later templates are often
+// derived from earlier ones so that several rules match the same path.
+func GenOverlappingRuleSet(t *rapid.T, o GenOpts, maxMethods int) RuleSet {
+	n := rapid.IntRange(1, maxMethods).Draw(t, "nmethods")
+	var rs RuleSet
+	var all []*ref.Template
+	var allVerbs []string
+	for i := 0; i < n; i++ {
+		nb := rapid.SampledFrom([]int{1, 1, 1, 2, 2, 3}).Draw(t, "nbindings")
+		var mr MethodRules
+		for j := 0; j < nb; j++ {
+			var tm *ref.Template
+			verb := rapid.SampledFrom(HTTPVerbs).Draw(t, "verb")
+			if len(all) > 0 && rapid.IntRange(0, 9).Draw(t, "derive") < 6 {
+				bi := rapid.IntRange(0, len(all)-1).Draw(t, "base")
+				tm = Derive(t, all[bi], o)
+				if rapid.IntRange(0, 9).Draw(t, "sameverb") < 7 {
+					verb = allVerbs[bi]
+				}
+			} else {
+				tm = GenTemplate(t, o)
+			}
+			all = append(all, tm)
+			allVerbs = append(allVerbs, verb)
+			mr.Bindings = append(mr.Bindings, Binding{Verb: verb, Tmpl: tm.String()})
+		}
+		rs = append(rs, mr)
+	}
+	return rs
 }
